@@ -40,6 +40,8 @@ class Runner:
 
     def on_event(self, kind, ws, data):
         c = ws.cid
+        if c == "x":          # the connection of the other service id: not part of this service's trace
+            return
         if kind == "sclosed":
             self.ev.append({"e": "sclosed", "c": c, "d": self.proj()})
             return
@@ -102,6 +104,15 @@ class Runner:
                 return
             self.ev.append({"e": "pclose", "c": c, "d": self.proj()})
             ws.peer_close()
+        elif k == "openx":
+            self.ev.append({"e": "xopen", "d": self.proj()})
+            self.ws["x"] = self.world.open("f" * 64, "cx", cid="x")
+        elif k == "closex":
+            ws = self.ws.get("x")
+            if ws is None or ws.closed:
+                return
+            self.ev.append({"e": "xclose", "d": self.proj()})
+            ws.peer_close()
         elif k == "timer":
             if self.world.proxy.pending():
                 self.ev.append({"e": "timer", "d": self.proj()})
@@ -122,8 +133,12 @@ class Runner:
 
     async def finish(self):
         await fs.settle()
-        for c in sorted(self.ws):
+        for c in sorted(self.ws, key=str):
             ws = self.ws[c]
+            if c == "x":
+                ws.peer_close()
+                await fs.settle()
+                continue
             if not ws.closed:
                 self.ev.append({"e": "pclose", "c": c, "d": self.proj()})
                 ws.peer_close()
@@ -172,17 +187,20 @@ def execute(fx, sched, fine, k):
     loop = asyncio.new_event_loop()
     loop.set_exception_handler(lambda l, c: None)
     try:
-        ev = loop.run_until_complete(asyncio.wait_for(rn.run(sched, fine), 60))
+        ev = loop.run_until_complete(asyncio.wait_for(rn.run(sched, fine), 600))
+    except asyncio.TimeoutError:
+        ev = rn.ev + [{"e": "noreturn", "d": {"st": 0, "cfg": 0, "idx": 0}}]
     finally:
         loop.close()
     shutil.rmtree(d, ignore_errors=True)
     return ev
 
 
-def gen_cfg(nconn, maxsend, maxticks, fine, depth, reqs):
-    return ("CONSTANTS NConn = %d\nMaxSend = %d\nMaxTicks = %d\nFine = %s\nD = %d\nReqSet = {%s}\n"
+def gen_cfg(nconn, maxsend, maxticks, fine, depth, reqs, withx=False):
+    return ("CONSTANTS NConn = %d\nMaxSend = %d\nMaxTicks = %d\nFine = %s\nD = %d\nReqSet = {%s}\nWithX = %s\n"
             "SPECIFICATION Spec\nINVARIANT Emit\nCHECK_DEADLOCK FALSE\n"
-            % (nconn, maxsend, maxticks, "TRUE" if fine else "FALSE", depth, ", ".join('"%s"' % r for r in reqs)))
+            % (nconn, maxsend, maxticks, "TRUE" if fine else "FALSE", depth, ", ".join('"%s"' % r for r in reqs),
+               "TRUE" if withx else "FALSE"))
 
 
 def generate(tr):
@@ -190,8 +208,8 @@ def generate(tr):
     out = []
     stats = {"generated": 0, "distinct": 0}
 
-    def run(nconn, maxsend, maxticks, fine, depth, reqs, simulate=None, cap=None, name=""):
-        r = run_tlc("MC_OverlapEnv", gen_cfg(nconn, maxsend, maxticks, fine, depth, reqs), workers=1 if simulate else 8,
+    def run(nconn, maxsend, maxticks, fine, depth, reqs, simulate=None, cap=None, name="", withx=False):
+        r = run_tlc("MC_OverlapEnv", gen_cfg(nconn, maxsend, maxticks, fine, depth, reqs, withx), workers=1 if simulate else 8,
                     simulate=simulate, depth=depth + 1 if simulate else None, name="gen" + name,
                     extra=(["-seed", str(seed() + 1)] if simulate else []))
         hs = sorted({repr(tla_value(x)[1]) for x in parse_printed(r.out, "H")})
@@ -210,13 +228,18 @@ def generate(tr):
         # exhaustive: 2 connections x <=2 requests over the three state-changing requests, coarse scheduling
         run(2, 2, 0, False, 9, ["cfg1", "up1", "up2"], cap=2500, name="a")
         # sampled: 3 connections, fine scheduling with explicit loop iterations
-        run(3, 2, 6, True, 16, allreq, simulate="num=1500", name="b")
+        run(3, 2, 6, True, 16, allreq, simulate="num=1500", cap=2000, name="b")
         run(3, 1, 0, False, 10, ["cfg1", "up1", "search"], cap=1500, name="c")
+        # a connection of ANOTHER service id whose cleanup holds the manager's global lock
+        run(2, 1, 0, False, 9, ["cfg1", "up1", "up2"], cap=1500, name="x", withx=True)
+        run(2, 2, 4, True, 14, ["cfg1", "up1", "up2"], simulate="num=800", cap=1000, name="y", withx=True)
     else:
         run(2, 2, 0, False, 9, allreq, cap=40000, name="a")
         run(3, 2, 8, True, 20, allreq, simulate="num=20000", name="b")
         run(3, 1, 0, False, 11, allreq, cap=20000, name="c")
         run(2, 3, 4, True, 14, ["cfg1", "up1", "up2", "search"], simulate="num=10000", name="d")
+        run(2, 2, 0, False, 11, ["cfg1", "up1", "up2"], cap=20000, name="x", withx=True)
+        run(3, 2, 6, True, 18, allreq, simulate="num=10000", name="y", withx=True)
     return out, stats
 
 
@@ -226,6 +249,8 @@ REGRESSION = [
     ([["open", 1], ["open", 2], ["send", 1, "cfg1"], ["send", 1, "up1"], ["close", 1], ["timer"], ["send", 2, "cfg2"], ["timer"]], False),
     ([["open", 1], ["open", 2], ["open", 3], ["send", 1, "cfg1"], ["close", 1], ["timer"], ["send", 2, "up1"], ["send", 3, "up2"]], False),
     ([["open", 1], ["send", 1, "cfg1"], ["send", 1, "up1"], ["close", 1], ["open", 2], ["send", 2, "search"], ["timer"]], False),
+    # another sid's cleanup holds the global lock while two connections of this sid open
+    ([["openx"], ["closex"], ["open", 1], ["open", 2], ["timer"], ["send", 1, "cfg1"], ["send", 2, "cfg2"], ["send", 1, "up1"], ["send", 2, "up2"]], False),
 ]
 
 
